@@ -109,8 +109,23 @@ def gen_fields(rng, nm, obj_cfg, prefix):
     fs = []
     for i in range(n):
         conv = gen_enum(rng, nm) if rng.random() < 0.5 else None
-        fs.append(adef.mk_field(prefix + "abcd"[i], "uint", 2 * i, 2 * i + 2, conv=conv, cfg=pick_cfg(rng, 0.45, obj_cfg),
-                                form="excl"))
+        fcfg = pick_cfg(rng, 0.45, obj_cfg)
+        if conv is not None:
+            # generated enums are unique per (name, cfg): the same NAME may come back under another effective cfg
+            # (feature-selected alternative layouts).  Remember (name, own cfgs) and reuse a name when this field's cfgs differ.
+            seen = getattr(nm, "enum_names", None)
+            if seen is None:
+                seen = nm.enum_names = []
+            mine = (obj_cfg, fcfg)
+            cands = [nme for nme, cfgs in seen if all(c != mine for c in cfgs) and mine != (None, None)]
+            if cands and rng.random() < 0.25:
+                conv["name"] = rng.choice(cands)
+                for ent in seen:
+                    if ent[0] == conv["name"]:
+                        ent[1].append(mine)
+            else:
+                seen.append((conv["name"], [mine]))
+        fs.append(adef.mk_field(prefix + "abcd"[i], "uint", 2 * i, 2 * i + 2, conv=conv, cfg=fcfg, form="excl"))
     return fs
 
 
@@ -324,8 +339,14 @@ def observe(facts, info):
     for v in fsv.get("debug_arms") or []:
         if v.get("variant") != "wild":
             add("fsv:" + v["variant"], "debug-arm", v["cfg"], v.get("cfg_raw", []))
+    enum_occ = collections.Counter()
     for e in facts["enums"]:
         n = e["name"]
+        # two generated enums may share a NAME when their cfgs differ (names are unique per (name, cfg)): the k-th enum
+        # of a name is keyed `name#k`, in emission order = the model's pre-order
+        enum_occ[n] += 1
+        if enum_occ[n] > 1:
+            n = "%s#%d" % (n, enum_occ[n])
         add("enum:" + n, "enum", e["cfg"], e["cfg_raw"])
         for im in e["impls"]:
             add("enum:" + n, "impl " + str(im["trait"]) + " for " + str(im["for"]), im["cfg"], im.get("cfg_raw", []))
@@ -353,9 +374,19 @@ def parse_listing(s, with_raw):
     out = collections.OrderedDict()
     if not s:
         return out
+    occ = collections.Counter()
+    cur = {}
     for part in s.split(";"):
         cols = part.split("@")
         key = cols[0]
+        if key.startswith("enum:"):
+            n = key[5:]
+            occ[n] += 1
+            cur[n] = n if occ[n] == 1 else "%s#%d" % (n, occ[n])
+            key = "enum:" + cur[n]
+        elif key.startswith("variant:"):
+            n, v = key[8:].split(".", 1)
+            key = "variant:%s.%s" % (cur.get(n, n), v)
         attr = canon_atoms([a for a in cols[1].split("|") if a])
         eff = attr if cols[2] == "=" else canon_atoms([a for a in cols[2].split("|") if a])
         raw = None
